@@ -10,6 +10,9 @@ def build(P):
             c = f(which)
             name = c.key.split(".")[-1]
             P.verify(c.key, c, tags=("C10",), label="%s[%s]" % (name, which), obl_prefix="%s.%s" % (which, name), timeout=30)
+    for which in ("asyncio", "blocking"):
+        c = A.start_execution_api(which)
+        P.verify(c.key, c, tags=("C10",), label="StartExecution[%s]" % which, obl_prefix="%s.aws_api_StartExecution" % which, timeout=30)
     P.native("api-sequences", "natives.c10:sequences", kind="bounded", clause="C10:", timeout=900,
              bound="both front ends (Quart / Flask test clients, real StateEngine + JSON file store): CreateStateMachine(m1) followed by "
                    "every one and a third (all at thorough) of the ordered pairs of 16 valid / invalid calls, then Describe and List; each "
